@@ -820,14 +820,26 @@ def E_catchment_fromdict(rng, tier):
                       # a legal *python* index into the mask the wrapper builds)
                       [-1, -2, 0], [0, 1, -1], [-nr * nc, 0], [-nr * nc - 1, 0, 1],
                       [0, nr * nc], [0, 1, nr * nc + 1], [0, 2 ** 40], [-2 ** 62, 0],
-                      [0, 0, 0], [nr * nc - 1, -1, nr * nc - 1]):
+                      [0, 0, 0], [nr * nc - 1, -1, nr * nc - 1],
+                      # numbers whose low 32 bits are a valid cell
+                      [0, 2 ** 31 + 1, 1], [0, 2 ** 32 + 1, 1, 2], [1, 2 ** 40 + 2, 0],
+                      [0, -2 ** 40 + 1, 1], [0, 1, 2 ** 62 + 1], [0, 2 ** 31, 1],
+                      [2, -2 ** 31 + 1, 0]):
             def thunk(nr=nr, nc=nc, cells=cells):
                 fd = Grid("fd", nc, nr, dtype=np.int64)
                 dic = {"name": "c", "idxcell_outlet": cells[0] if cells else 0,
                        "idxinlets": None, "idxcells_area": cells,
                        "idxcells_area_filled": cells, "flowdir": fd.to_dict()}
                 cat = Catchment.from_dict(dic)
+                nmask = nr * nc
                 for f in (lambda: cat.delineate_boundary(),
+                          # the documented option: the caller's own area mask
+                          lambda: cat.delineate_boundary(
+                              catchment_area_mask=np.ones(nmask, dtype=np.int64)),
+                          lambda: cat.delineate_boundary(
+                              catchment_area_mask=np.zeros(nmask, dtype=np.int64)),
+                          lambda: cat.delineate_boundary(
+                              catchment_area_mask=np.ones(max(nmask - 1, 0), dtype=np.int64)),
                           lambda: cat.compute_flowpathlengths(),
                           lambda: cat.intersect(Grid("c", 2, 2, cellsize=2.0)),
                           lambda: cat.intersect(Grid("c", 1, 1, cellsize=1e-3,
@@ -867,6 +879,29 @@ def E_accumulate(rng, tier):
                         except ValueError:
                             pass
                     yield f"{nr}x{nc}|{kind}|nprint={nprint}|max={maxacc}", thunk
+    # geo-references at the ends of the number line (cell sizes, corners, altitudes and
+    # no-data values with hundreds of digits: anything a kernel formats or scales)
+    for csz in (1e-300, 1e-30, 1e30, 1e108, 1e200, 1e300, 1.7e308, 5e-324):
+        for corner in (0.0, -1e300, 1e300):
+            def extreme(csz=csz, corner=corner):
+                r = np.random.default_rng(3)
+                from hydrodiy.gis.grid import Grid, Catchment
+                codes = gen_forest(r, 3, 4, 0)
+                fd = Grid("fd", 4, 3, dtype=np.int64, cellsize=csz, xllcorner=corner,
+                          yllcorner=-corner)
+                fd.data = codes
+                alt = Grid("alt", 4, 3, cellsize=csz, xllcorner=corner, yllcorner=-corner,
+                           nodata=-1e300)
+                alt.data = r.normal(size=(3, 4)) * 1e300
+                for f in (lambda: g.slope(fd, alt), lambda: g.slope(fd, alt, nprint=1),
+                          lambda: g.accumulate(fd, alt, nprint=1),
+                          lambda: g.delineate_river(fd, 0),
+                          lambda: Catchment("c", fd).delineate_area(5)):
+                    try:
+                        f()
+                    except (ValueError, OverflowError, ZeroDivisionError):
+                        pass
+            yield f"extreme-georeference|csz={csz:g}|corner={corner:g}", extreme
     # mismatching shapes must be rejected by the wrappers' asserts
     def mismatch():
         cat, fd = _catch(np.ones((3, 3)))
